@@ -369,3 +369,261 @@ theorem finv_step (s : Fwd) (op : FOp) (h : FInv s) : FInv (fwdStep s op) := by
       rw [blGet_filter, h.2 hq]; rfl
 
 end RPVerif.Raptor
+
+namespace RPVerif.Raptor
+open List
+
+theorem rrFrom_snd (qs : List Nat) (hq : qs ≠ []) (ts : List Nat) : ∀ i, (rrFrom qs i ts).map (·.2) = ts := by
+  induction ts with
+  | nil => intro i; rfl
+  | cons t ts ih =>
+    intro i
+    have hl : 0 < qs.length := length_pos_iff.mpr hq
+    have hlt : i % qs.length < qs.length := Nat.mod_lt _ hl
+    simp only [rrFrom, getElem?_eq_getElem hlt, map_append, map_cons, map_nil, ih (i + 1)]
+    rfl
+
+theorem roundRobin_snd (qs : List Nat) (hq : qs ≠ []) (ts : List Nat) : (roundRobin qs ts).map (·.2) = ts :=
+  rrFrom_snd qs hq ts 0
+
+theorem rrFrom_fst (qs : List Nat) (ts : List Nat) : ∀ i, ∀ e ∈ rrFrom qs i ts, e.1 ∈ qs := by
+  induction ts with
+  | nil => intro i e he; cases he
+  | cons t ts ih =>
+    intro i e he
+    simp only [rrFrom, mem_append] at he
+    rcases he with he | he
+    · cases hq : qs[i % qs.length]? with
+      | none => rw [hq] at he; cases he
+      | some q =>
+        rw [hq] at he
+        simp at he
+        subst he
+        exact mem_of_getElem? hq
+    · exact ih (i + 1) e he
+
+/-- keys of the backlog are distinct -/
+def KeysNodup (b : BL) : Prop := (b.map (·.1)).Nodup
+
+def waiting (b : BL) : List Nat := b.flatMap (·.2)
+
+theorem waiting_cons (e : Option Nat × List Nat) (es : BL) : waiting (e :: es) = e.2 ++ waiting es := by
+  simp [waiting]
+
+theorem blGet_of_not_mem (b : BL) (k : Option Nat) (h : k ∉ b.map (·.1)) : blGet b k = [] := by
+  apply blGet_none_of_not_any
+  intro hany
+  obtain ⟨e, he, hk⟩ := any_eq_true.mp hany
+  exact h (mem_map.mpr ⟨e, he, by simpa using hk⟩)
+
+/-- with distinct keys, deleting a key removes exactly what `blGet` reads -/
+theorem count_blDel (b : BL) (k : Option Nat) (t : Nat) (hn : KeysNodup b) :
+    (waiting (blDel b k)).count t + (blGet b k).count t = (waiting b).count t := by
+  induction b with
+  | nil => simp [waiting, blDel, blGet]
+  | cons e es ih =>
+    have hn' : KeysNodup es := (nodup_cons.mp (by simpa [KeysNodup] using hn)).2
+    have hnot : e.1 ∉ es.map (·.1) := (nodup_cons.mp (by simpa [KeysNodup] using hn)).1
+    by_cases he : e.1 = k
+    · have hf : blDel (e :: es) k = blDel es k := by
+        unfold blDel; rw [filter_cons]; simp [he]
+      have hnotk : k ∉ es.map (·.1) := he ▸ hnot
+      have hdel : blDel es k = es := by
+        unfold blDel
+        apply filter_eq_self.mpr
+        intro x hx
+        have : x.1 ≠ k := fun h => hnotk (mem_map.mpr ⟨x, hx, h⟩)
+        simpa using this
+      rw [hf, hdel, blGet_cons_pos _ _ _ he, waiting_cons, count_append]
+      omega
+    · have hf : blDel (e :: es) k = e :: blDel es k := by
+        unfold blDel; rw [filter_cons]; simp [he]
+      rw [hf, blGet_cons_neg _ _ _ he, waiting_cons, waiting_cons, count_append, count_append]
+      have := ih hn'
+      omega
+
+theorem keysNodup_blDel (b : BL) (k : Option Nat) (hn : KeysNodup b) : KeysNodup (blDel b k) := by
+  unfold KeysNodup blDel at *
+  exact hn.sublist ((filter_sublist (l := b)).map _)
+
+theorem keysNodup_blAdd (b : BL) (k : Option Nat) (ts : List Nat) (hn : KeysNodup b) : KeysNodup (blAdd b k ts) := by
+  unfold blAdd
+  split
+  · unfold KeysNodup at *
+    have : (b.map (fun e => if e.1 = k then (e.1, e.2 ++ ts) else e)).map (·.1) = b.map (·.1) := by
+      rw [map_map]; apply map_congr_left; intro e _; simp only [Function.comp]; split <;> rfl
+    rw [this]; exact hn
+  · rename_i hany
+    unfold KeysNodup at *
+    rw [map_append]
+    apply nodup_append.mpr
+    refine ⟨hn, by simp, ?_⟩
+    intro a ha b' hb' hab
+    simp at hb'
+    obtain ⟨e, he, rfl⟩ := mem_map.mp ha
+    apply hany
+    exact any_eq_true.mpr ⟨e, he, by simp [hab, hb']⟩
+
+theorem count_blAdd (b : BL) (k : Option Nat) (ts : List Nat) (t : Nat) (hn : KeysNodup b) :
+    (waiting (blAdd b k ts)).count t = (waiting b).count t + ts.count t := by
+  unfold blAdd
+  by_cases hany : b.any (fun e => e.1 = k) = true
+  · rw [if_pos hany]
+    induction b with
+    | nil => simp at hany
+    | cons e es ih =>
+      have hn' : KeysNodup es := (nodup_cons.mp (by simpa [KeysNodup] using hn)).2
+      have hnot : e.1 ∉ es.map (·.1) := (nodup_cons.mp (by simpa [KeysNodup] using hn)).1
+      rw [map_cons, waiting_cons, waiting_cons]
+      by_cases he : e.1 = k
+      · have hnotk : k ∉ es.map (·.1) := he ▸ hnot
+        have hrest : es.map (fun e => if e.1 = k then (e.1, e.2 ++ ts) else e) = es := by
+          conv => rhs; rw [← map_id es]
+          apply map_congr_left
+          intro x hx
+          have : ¬ x.1 = k := fun h => hnotk (mem_map.mpr ⟨x, hx, h⟩)
+          simp [this]
+        rw [hrest, if_pos he]
+        simp only [count_append]
+        omega
+      · have hany' : es.any (fun e => e.1 = k) = true := by
+          simp only [any_cons, Bool.or_eq_true, decide_eq_true_eq] at hany
+          rcases hany with h | h
+          · exact absurd h he
+          · simpa using h
+        rw [if_neg he]
+        simp only [count_append, ih hn' hany']
+        omega
+  · rw [if_neg hany]
+    simp [waiting, count_append]
+
+end RPVerif.Raptor
+
+namespace RPVerif.Raptor
+open List
+
+/-- in how many places request `t` is: delivered to a master, failed, canceled, or waiting -/
+def cnt (s : Fwd) (t : Nat) : Nat :=
+  (s.delivered.map (·.2)).count t + s.failed.count t + s.canceled.count t + (waiting s.backlog).count t
+
+theorem count_filter_split (l : List Nat) (p : Nat → Bool) (t : Nat) :
+    (l.filter p).count t + (l.filter (fun x => !p x)).count t = l.count t := by
+  induction l with
+  | nil => rfl
+  | cons x xs ih =>
+    by_cases hp : p x = true
+    · simp only [filter_cons, hp, if_true, Bool.not_true, Bool.false_eq_true, if_false, count_cons]; omega
+    · have hp' : p x = false := by simpa using hp
+      simp only [filter_cons, hp', Bool.false_eq_true, if_false, Bool.not_false, if_true, count_cons]; omega
+
+theorem cnt_cancel_aux (b : BL) (us : List Nat) (t : Nat) :
+    (waiting (b.map (fun e => (e.1, e.2.filter (fun x => decide (x ∉ us)))))).count t
+      + (b.flatMap (fun e => e.2.filter (fun x => decide (x ∈ us)))).count t = (waiting b).count t := by
+  induction b with
+  | nil => rfl
+  | cons e es ih =>
+    rw [map_cons, waiting_cons, waiting_cons, flatMap_cons, count_append, count_append, count_append]
+    have h := count_filter_split e.2 (fun x => decide (x ∈ us)) t
+    have e1 : (e.2.filter (fun x => !decide (x ∈ us))) = e.2.filter (fun x => decide (x ∉ us)) := by
+      apply filter_congr; intro x _; simp
+    rw [e1] at h
+    simp only at h ⊢
+    omega
+
+theorem keysNodup_cancel (b : BL) (p : Nat → Bool) (hn : KeysNodup b) : KeysNodup (b.map (fun e => (e.1, e.2.filter p))) := by
+  unfold KeysNodup at *
+  rw [map_map]
+  exact hn
+
+theorem cnt_step_local (s : Fwd) (op : FOp) (t : Nat) (hn : KeysNodup s.backlog)
+    (hop : ∀ gs, op ≠ .incoming gs) : cnt (fwdStep s op) t = cnt s t ∧ KeysNodup (fwdStep s op).backlog := by
+  cases op with
+  | incoming gs => exact absurd rfl (hop gs)
+  | register m =>
+    refine ⟨?_, keysNodup_blDel _ _ (keysNodup_blDel _ _ hn)⟩
+    simp only [fwdStep, fwdRegister, cnt, map_append, map_map, count_append]
+    have h1 := count_blDel s.backlog (some m) t hn
+    have h2 := count_blDel (blDel s.backlog (some m)) none t (keysNodup_blDel _ _ hn)
+    have h3 : blGet (blDel s.backlog (some m)) none = blGet s.backlog none := by
+      rw [blGet_del]; simp
+    rw [h3] at h2
+    have e1 : ∀ l : List Nat, (l.map ((fun x : Nat × Nat => x.2) ∘ fun t => (m, t))) = l := by
+      intro l; simp [Function.comp_def]
+    rw [e1, e1]
+    omega
+  | unregister m =>
+    refine ⟨?_, keysNodup_blDel _ _ hn⟩
+    simp only [fwdStep, fwdUnregister, cnt, count_append]
+    have h1 := count_blDel s.backlog (some m) t hn
+    omega
+  | cancel us =>
+    refine ⟨?_, keysNodup_cancel _ _ hn⟩
+    simp only [fwdStep, fwdCancel, cnt, count_append]
+    have h := cnt_cancel_aux s.backlog us t
+    omega
+
+theorem cnt_incoming (gs : List (Option Nat × List Nat)) (t : Nat) : ∀ s, KeysNodup s.backlog →
+    cnt (fwdIncoming s gs) t = cnt s t + (gs.flatMap (·.2)).count t ∧ KeysNodup (fwdIncoming s gs).backlog := by
+  induction gs with
+  | nil => intro s hn; exact ⟨by simp [fwdIncoming], hn⟩
+  | cons g gs ih =>
+    intro s hn
+    obtain ⟨k, ts⟩ := g
+    unfold fwdIncoming
+    rw [flatMap_cons, count_append]
+    cases k with
+    | some m =>
+      simp only
+      split
+      · have := ih { s with delivered := s.delivered ++ ts.map (fun t => (m, t)) } hn
+        refine ⟨?_, this.2⟩
+        rw [this.1]
+        simp only [cnt, map_append, map_map, count_append]
+        have e1 : (ts.map ((fun x : Nat × Nat => x.2) ∘ fun t => (m, t))) = ts := by simp [Function.comp_def]
+        rw [e1]; omega
+      · have := ih { s with backlog := blAdd s.backlog (some m) ts } (keysNodup_blAdd _ _ _ hn)
+        refine ⟨?_, this.2⟩
+        rw [this.1]
+        simp only [cnt, count_blAdd _ _ _ _ hn]; omega
+    | none =>
+      simp only
+      split
+      · rename_i hq
+        have := ih { s with delivered := s.delivered ++ roundRobin s.queues ts } hn
+        refine ⟨?_, this.2⟩
+        rw [this.1]
+        simp only [cnt, map_append, count_append, roundRobin_snd s.queues hq ts]; omega
+      · have := ih { s with backlog := blAdd s.backlog none ts } (keysNodup_blAdd _ _ _ hn)
+        refine ⟨?_, this.2⟩
+        rw [this.1]
+        simp only [cnt, count_blAdd _ _ _ _ hn]; omega
+
+/-- the requests that came in with the drains of a history -/
+def arrived : List FOp → List Nat
+  | []                  => []
+  | .incoming gs :: ops => gs.flatMap (·.2) ++ arrived ops
+  | _ :: ops            => arrived ops
+
+theorem cnt_run (ops : List FOp) (t : Nat) : ∀ s, KeysNodup s.backlog →
+    cnt (ops.foldl fwdStep s) t = cnt s t + (arrived ops).count t := by
+  induction ops with
+  | nil => intro s _; simp [arrived]
+  | cons op ops ih =>
+    intro s hn
+    rw [foldl_cons]
+    cases op with
+    | incoming gs =>
+      have h := cnt_incoming gs t s hn
+      show cnt (foldl fwdStep (fwdIncoming s gs) ops) t = _
+      rw [ih _ h.2, h.1, arrived, count_append]; omega
+    | register m =>
+      have h := cnt_step_local s (.register m) t hn (fun gs h => by cases h)
+      rw [ih _ h.2, h.1]; rfl
+    | unregister m =>
+      have h := cnt_step_local s (.unregister m) t hn (fun gs h => by cases h)
+      rw [ih _ h.2, h.1]; rfl
+    | cancel us =>
+      have h := cnt_step_local s (.cancel us) t hn (fun gs h => by cases h)
+      rw [ih _ h.2, h.1]; rfl
+
+end RPVerif.Raptor
